@@ -83,6 +83,7 @@ type E1 struct {
 	Panics      int64
 	DupHits     int64
 	PrunedViolating int64
+	DivergedReplays int64
 	MaxDepthDone int
 	ProbedLeaves bool
 	Capped      bool
@@ -95,7 +96,12 @@ type node struct {
 	init *Initial
 	hist []Op
 	acc  []bool
+	keys [][20]byte // canonical state key after each step of hist (replays must reproduce them)
 }
+
+// errReplayDiverged marks a replay whose intermediate states differ from the recorded ones although the
+// accept/reject flags match: the implementation behaved differently on the same history (Go map iteration order).
+var errReplayDiverged = fmt.Errorf("replay reached a different state than recorded")
 
 // Replay builds a fresh world and replays a history, checking that acceptance matches the recording.
 func (e *E1) Replay(init *Initial, hist []Op, acc []bool) (*World, *Model, error) {
@@ -104,6 +110,12 @@ func (e *E1) Replay(init *Initial, hist []Op, acc []bool) (*World, *Model, error
 
 // ReplayOn is Replay on a given cache client.
 func (e *E1) ReplayOn(cc cache.Client, init *Initial, hist []Op, acc []bool) (*World, *Model, error) {
+	return e.replayChecked(cc, &node{init: init, hist: hist, acc: acc})
+}
+
+// replayChecked replays a node's history and verifies accept flags and (if recorded) the state keys.
+func (e *E1) replayChecked(cc cache.Client, n *node) (*World, *Model, error) {
+	init, hist, acc := n.init, n.hist, n.acc
 	opts := e.Opts
 	opts.Fragments = e.Frags
 	w, err := NewWorld(e.U, cc, init.Leaves, opts)
@@ -127,6 +139,13 @@ func (e *E1) ReplayOn(cc cache.Client, init *Initial, hist []Op, acc []bool) (*W
 		if ok {
 			applyEnd(m, op, e.Frags)
 		}
+		if n.keys != nil {
+			st, err := w.Snapshot()
+			if err != nil || hashKey(init.Name+"\n"+st.Key()+"\n"+m.Key()) != n.keys[i] {
+				w.Close()
+				return nil, nil, errReplayDiverged
+			}
+		}
 	}
 	return w, m, nil
 }
@@ -144,6 +163,7 @@ func applyEnd(m *Model, op Op, frags map[string]*Fragment) {
 func hashKey(s string) [20]byte { return sha1.Sum([]byte(s)) }
 
 type taskResult struct {
+	skipped  bool
 	violated bool
 	key      [20]byte
 	accepted bool
@@ -174,7 +194,7 @@ func (e *E1) Run() error {
 		k := hashKey(in.Name + "\n" + st.Key() + "\n" + m.Key())
 		if !seen[k] {
 			seen[k] = true
-			frontier = append(frontier, &node{init: in})
+			frontier = append(frontier, &node{init: in, keys: [][20]byte{}})
 		}
 	}
 	e.States = int64(len(seen))
@@ -247,7 +267,7 @@ func (e *E1) Run() error {
 		}()
 		var next []*node
 		for r := range results {
-			if r.err != nil {
+			if r.err != nil || r.skipped {
 				continue
 			}
 			if r.probe {
@@ -266,7 +286,8 @@ func (e *E1) Run() error {
 			seen[r.key] = true
 			h2 := append(append([]Op{}, r.n.hist...), r.op)
 			a2 := append(append([]bool{}, r.n.acc...), r.accepted)
-			next = append(next, &node{init: r.n.init, hist: h2, acc: a2})
+			k2 := append(append([][20]byte{}, r.n.keys...), r.key)
+			next = append(next, &node{init: r.n.init, hist: h2, acc: a2, keys: k2})
 		}
 		if f := fatal.Load(); f != nil {
 			return f.(error)
@@ -290,7 +311,22 @@ func (e *E1) Run() error {
 
 func (e *E1) runTask(cc cache.Client, n *node, op Op, probe bool) (res taskResult) {
 	res = taskResult{n: n, op: op, probe: probe}
-	w, m, err := e.ReplayOn(cc, n.init, n.hist, n.acc)
+	var w *World
+	var m *Model
+	var err error
+	for attempt := 0; attempt < 5; attempt++ {
+		w, m, err = e.replayChecked(cc, n)
+		if err != errReplayDiverged {
+			break
+		}
+	}
+	if err == errReplayDiverged {
+		// the implementation does not reproduce this history deterministically; judging the next step from a
+		// different state would blame the wrong transition. Skip and count.
+		atomic.AddInt64(&e.DivergedReplays, 1)
+		res.skipped = true
+		return
+	}
 	if err != nil {
 		res.err = err
 		return
@@ -386,6 +422,7 @@ func (e *E1) Coverage() map[string]any {
 		"panics":                        e.Panics,
 		"duplicate_state_hits":          e.DupHits,
 		"successors_not_extended_after_violation": e.PrunedViolating,
+		"nondeterministic_replays_skipped":        e.DivergedReplays,
 		"distinct_outcomes":             n,
 		"outcome_classes":               classes,
 		"alphabet_size":                 len(e.Alphabet),
